@@ -9,7 +9,7 @@
    Statements of the form "forall w, hsum w (op h) = hsum (w o f) h" say that op is the push-forward
    of the histogram along f on keys: nothing is lost, created or moved to a wrong key. *)
 From Coq Require Import String ZArith QArith Qcanon List Bool.
-From Tangelo Require Import Num.Show Post.Histogram Post.Grouping Post.HistogramProofs Post.GroupingProofs Post.Packaging.
+From Tangelo Require Import Num.Show Post.Histogram Post.Grouping Post.HistogramProofs Post.GroupingProofs Post.Packaging Post.Resample Post.ResampleProofs.
 From Gen Require Import PostTables.
 Import ListNotations.
 Local Open Scope Qc_scope.
@@ -159,6 +159,20 @@ Theorem C18_frequencies_roundtrip :
 Proof. exact frequencies_roundtrip. Qed.
 Print Assumptions C18_frequencies_roundtrip.
 
+(* the chunk loop of get_resampled_frequencies (chunk size regenerated from bootstrapping.py): the sizes
+   requested from the sampler add up to the requested number of samples, for EVERY number of samples
+   (in particular exact multiples of the chunk size) — and for every positive chunk size *)
+Theorem C18_resample_chunks_conserve :
+  forall ncount : Z, (0 <= ncount)%Z -> zsum (chunk_sizes ncount resample_chunk_size) = ncount.
+Proof. exact (fun ncount H => resample_chunks_sum ncount resample_chunk_size eq_refl H). Qed.
+Print Assumptions C18_resample_chunks_conserve.
+
+Theorem C18_resample_chunks_conserve_any_chunk :
+  forall ncount chunk_size : Z, (0 < chunk_size)%Z -> (0 <= ncount)%Z ->
+    zsum (chunk_sizes ncount chunk_size) = ncount /\ Forall (fun s => (0 <= s)%Z) (chunk_sizes ncount chunk_size).
+Proof. exact (fun n c Hc Hn => conj (resample_chunks_sum n c Hc Hn) (resample_chunks_nonneg n c Hc)). Qed.
+Print Assumptions C18_resample_chunks_conserve_any_chunk.
+
 (* ------------------------------------------------------------------------------------------------
    8. Grouping: a grouping accepted by the checker contains each term of H exactly once with its
       coefficient, and for histograms of one state in each basis the assembled value is the
@@ -237,6 +251,11 @@ Proof.
   intros tc q Htc Hq. simpl in Htc. destruct Htc as [E|[E|[E|[]]]]; subst tc; simpl in Hq; try tauto;
     destruct Hq as [E|[]]; subst q; constructor.
 Qed.
+
+Example C18_example_chunks :
+  chunk_sizes 25 10 = [10; 10; 5]%Z /\ chunk_sizes 20 10 = [10; 10; 0]%Z /\ chunk_sizes 7 10 = [7]%Z
+  /\ chunk_sizes (2 * resample_chunk_size) resample_chunk_size = [resample_chunk_size; resample_chunk_size; 0]%Z.
+Proof. vm_compute. repeat split. Qed.
 
 (* qubit-wise commuting is weaker than diagonal: X1 commutes qubit-wise with the basis (X0) — which is
    what map_measurements_qwc lists — but a circuit for basis (X0) measures qubit 1 along Z *)
